@@ -523,10 +523,20 @@ class _exponential:
                 lo, hi = fmin(lo, x), fmax(hi, x)
         llo, lhi = _ufun_app("log10", lo), _ufun_app("log10", hi)
         return And(typename(result) == "ExponentialBinning", attr(result, "_log_min") == llo, attr(result, "_bin_count") == n,
-                   attr(result, "_log_width") * n == lhi - llo,
-                   Implies(lhi > llo, attr(result, "_log_width") > 0))     # rising needs a positive log-width (monotone 10**x)
+                   close(attr(result, "_log_width") * n, lhi - llo),
+                   attr(result, "_log_width") > 0)     # strictly rising edges need a positive log-width (10**x is monotone)
 
-    known = {}
+    @raises(ValueError, "degenerate_range_refused")
+    def _(o):
+        from pyvc.spec import _ufun_app
+        if hasattr(o, "range"):
+            lo, hi = o.range
+        else:
+            d = elems(o.data)
+            lo, hi = d[0], d[0]
+            for x in d[1:]:
+                lo, hi = fmin(lo, x), fmax(hi, x)
+        return Not(_ufun_app("log10", hi) > _ufun_app("log10", lo))
 
 
 @contract(BN + "quantile_binning", props=["C07"])
